@@ -18,6 +18,9 @@ BSMON = os.path.join(TARGET, 'release', 'bsmon')
 REFTRACE = os.path.join(TARGET, 'release', 'reftrace')
 PUREMON = os.path.join(TARGET, 'release', 'puremon')
 BS = os.path.join(TARGET_BS, 'release', 'bs')
+TARGET_ASAN = os.path.join(HARNESS, 'target-asan')
+BSMON_ASAN = os.path.join(TARGET_ASAN, 'x86_64-unknown-linux-gnu', 'release', 'bsmon')
+ASAN_LOGS = os.path.join(ROOT, 'tmp', 'asan')
 CORPUS = os.path.join(ROOT, 'corpus')
 EVIDENCE = os.path.join(ROOT, 'evidence')
 REPLAY = os.path.join(ROOT, 'replay')
@@ -72,6 +75,38 @@ def build_harness(verbose=True):
         print(f'[build] harness ok in {time.time() - t0:.1f}s')
 
 
+def build_harness_asan(verbose=True, jobs=None):
+    """The worker again, built by the nightly toolchain with AddressSanitizer (own target directory). The first build
+    compiles every dependency (minutes); later builds only what /repo's working tree changed."""
+    t0 = time.time()
+    e = cargo_env()
+    e['CARGO_TARGET_DIR'] = TARGET_ASAN
+    e['RUSTFLAGS'] = '-Zsanitizer=address -Cforce-frame-pointers=yes'
+    cmd = ['cargo', '+nightly', 'build', '--release', '--offline', '-p', 'bsmon', '--target', 'x86_64-unknown-linux-gnu']
+    if jobs:
+        cmd += ['-j', str(jobs)]
+    r = subprocess.run(cmd, cwd=HARNESS, env=e, stdout=subprocess.PIPE, stderr=subprocess.STDOUT, text=True)
+    if r.returncode != 0:
+        sys.stdout.write(r.stdout[-6000:])
+        print('BUILD-FAILED harness-asan (machinery error, not a verdict)')
+        return False
+    if verbose:
+        print(f'[build] harness (AddressSanitizer) ok in {time.time() - t0:.1f}s')
+    return True
+
+
+def asan_wanted(tier):
+    return tier == 'thorough' or os.environ.get('VERIF_ASAN') == '1'
+
+
+def asan_ready():
+    """the sanitized worker exists and is not older than the plain one (both are rebuilt from /repo's working tree)"""
+    try:
+        return os.path.getmtime(BSMON_ASAN) >= os.path.getmtime(BSMON) - 1
+    except OSError:
+        return False
+
+
 def build_bs(verbose=True):
     """Build the real `bs` binary (console + DAP) from /repo with the verif feature."""
     t0 = time.time()
@@ -102,19 +137,33 @@ class WorkerTimeout(Exception):
 class Worker:
     """Client of one bsmon process."""
 
-    def __init__(self, extra_env=None, rlimit_as_gb=8, stderr_path=None, cpus=None):
+    def __init__(self, extra_env=None, rlimit_as_gb=8, stderr_path=None, cpus=None, sanitized=False):
         self.log = []
         self.stderr_path = stderr_path
+        self.sanitized = sanitized
+        self.asan_log = None
+        if sanitized:
+            # the AddressSanitizer build: its shadow memory needs the whole address space (no RLIMIT_AS); reports go to a file
+            os.makedirs(ASAN_LOGS, exist_ok=True)
+            self.asan_log = os.path.join(ASAN_LOGS, f'asan.{os.getpid()}.{time.time_ns()}')
+            extra_env = dict(extra_env or {})
+            extra_env['ASAN_OPTIONS'] = f'detect_leaks=0:halt_on_error=1:abort_on_error=0:exitcode=86:allocator_may_return_null=1:log_path={self.asan_log}'
+            for cand in ('/usr/lib/llvm-14/bin/llvm-symbolizer', '/usr/bin/llvm-symbolizer'):
+                if os.path.exists(cand):
+                    extra_env['ASAN_SYMBOLIZER_PATH'] = cand
+                    break
+            rlimit_as_gb = None
         errf = open(stderr_path, 'wb') if stderr_path else subprocess.DEVNULL
 
         def pre():
             import resource
-            lim = rlimit_as_gb << 30
-            resource.setrlimit(resource.RLIMIT_AS, (lim, lim))
+            if rlimit_as_gb:
+                lim = rlimit_as_gb << 30
+                resource.setrlimit(resource.RLIMIT_AS, (lim, lim))
             os.setsid()
             if cpus:
                 os.sched_setaffinity(0, cpus)
-        self.p = subprocess.Popen([BSMON], stdin=subprocess.PIPE, stdout=subprocess.PIPE, stderr=errf,
+        self.p = subprocess.Popen([BSMON_ASAN if sanitized else BSMON], stdin=subprocess.PIPE, stdout=subprocess.PIPE, stderr=errf,
                                   env=fixed_env(extra_env), preexec_fn=pre, bufsize=0)
         self.buf = b''
         self.dead = False
@@ -148,6 +197,18 @@ class Worker:
             raise WorkerDead()
         line = self._readline(timeout)
         return json.loads(line)
+
+    def asan_reports(self):
+        """texts of the sanitizer reports this worker (or a child it forked) wrote"""
+        import glob
+        out = []
+        if self.asan_log:
+            for f in glob.glob(self.asan_log + '.*'):
+                try:
+                    out.append(open(f, errors='replace').read())
+                except OSError:
+                    pass
+        return out
 
     def exit_status(self):
         try:
